@@ -498,6 +498,7 @@ func main() {
 	n := flag.Int("n", 1000, "cases")
 	tier := flag.String("tier", "quick", "quick|thorough")
 	outPath := flag.String("out", "", "output file")
+	replay := flag.String("replay", "", "re-execute the K lines of this file")
 	flag.Parse()
 	var w *bufio.Writer
 	if *outPath == "" {
@@ -517,6 +518,10 @@ func main() {
 	if *tier == "thorough" {
 		maxLen = 400
 	}
+	if *replay != "" {
+		doReplay(*replay, w)
+		return
+	}
 	fmt.Fprintf(w, "# kern prop=%s seed=%d n=%d tier=%s\n", *prop, *seed, *n, *tier)
 	switch *prop {
 	case "ww":
@@ -534,5 +539,72 @@ func main() {
 	default:
 		fmt.Fprintln(os.Stderr, "unknown generator", *prop)
 		os.Exit(2)
+	}
+}
+
+func pw(s string) []Word {
+	s = strings.TrimSpace(s)
+	if s == "-" || s == "" {
+		return nil
+	}
+	parts := strings.Split(s, ",")
+	w := make([]Word, len(parts))
+	for i, p := range parts {
+		v, err := strconv.ParseUint(strings.TrimSpace(p), 10, 64)
+		if err != nil {
+			panic("bad word " + p)
+		}
+		w[i] = Word(v)
+	}
+	return w
+}
+
+func pu(s string) uint64 {
+	v, err := strconv.ParseUint(strings.TrimSpace(s), 10, 64)
+	if err != nil {
+		panic("bad number " + s)
+	}
+	return v
+}
+
+// doReplay re-executes kernel cases: only the inputs of each K line are used.
+func doReplay(path string, w *bufio.Writer) {
+	f, err := os.Open(path)
+	if err != nil {
+		fmt.Fprintln(os.Stderr, err)
+		os.Exit(2)
+	}
+	defer f.Close()
+	sc := bufio.NewScanner(f)
+	sc.Buffer(make([]byte, 1<<20), 1<<28)
+	for sc.Scan() {
+		line := sc.Text()
+		if !strings.HasPrefix(line, "K ") {
+			continue
+		}
+		parts := strings.Split(line[2:], "|")
+		hd := strings.Fields(parts[0])
+		switch hd[0] {
+		case "ww":
+			a, b, c := Word(pu(hd[2])), Word(pu(hd[3])), Word(pu(hd[4]))
+			a1, a2 := decimal.VerifWW(hd[1], false, a, b, c)
+			p1, p2 := decimal.VerifWW(hd[1], true, a, b, c)
+			fmt.Fprintf(w, "K ww %s %d %d %d | %d %d | %d %d\n", hd[1], a, b, c, a1, a2, p1, p2)
+		case "vec":
+			name, s, r, shape := hd[1], Word(pu(hd[2])), Word(pu(hd[3])), hd[4]
+			x, y := pw(parts[1]), pw(parts[2])
+			k := 1
+			za, ca := runVec(name, false, shape, k, x, y, s, r)
+			zp, cp := runVec(name, true, shape, k, x, y, s, r)
+			fmt.Fprintf(w, "K vec %s %d %d %s | %s | %s | %s %d | %s %d\n", name, s, r, shape, ws(x), ws(y), ws(za), ca, ws(zp), cp)
+		case "dec":
+			op := hd[1]
+			kt, bt, st, s := int(pu(hd[2])), int(pu(hd[3])), int(pu(hd[4])), uint(pu(hd[5]))
+			x, y := pw(parts[1]), pw(parts[2])
+			ok, ob, os_ := decimal.VerifSetThresholds(kt, bt, st)
+			q, r, msg := runDec(op, nil, append([]Word(nil), x...), append([]Word(nil), y...), s)
+			decimal.VerifSetThresholds(ok, ob, os_)
+			fmt.Fprintf(w, "K dec %s %d %d %d %d | %s | %s | %s | %s | %s\n", op, kt, bt, st, s, ws(x), ws(y), ws(q), ws(r), msg)
+		}
 	}
 }
